@@ -139,8 +139,8 @@ func runSelfTest(prop, repo, verifDir string) (results []selfResult, failures []
 				if m := reportLine.FindStringSubmatch(ln); m != nil && m[1] == prop {
 					if r.Report == "" {
 						d := m[3]
-						if len(d) > 220 {
-							d = d[:220] + "…"
+						if r := []rune(d); len(r) > 220 {
+							d = string(r[:220]) + "…"
 						}
 						r.Report = m[2] + " " + d
 					}
